@@ -1,2 +1,349 @@
-(* Proofs for property C18. *)
-From SC.Model Require Import Base.
+(* Proofs for property C18: custom rules and user-defined unit families - registration,
+   effect, removal.  About the API state machine Corr.step and the rule loop of Rules.v. *)
+From Coq Require Import Floats Arith Lia.
+From SC.Model Require Import Base Num NumF64 Types Config Case Match Chrono UiTokens Rx Post Parser Items Interp
+     RuleFns Rules Format Lexer Api Run64 Corr.
+From SC.Proofs Require Import C04.
+
+Local Open Scope nat_scope.
+
+(* ---------- association-list lemmas ---------- *)
+Lemma assoc_update_same {A} k (f : A -> A) l : assoc k (assoc_update k f l) = option_map f (assoc k l).
+Proof.
+  induction l as [|[k' v] r IH]; cbn [assoc_update assoc option_map]; [reflexivity|].
+  destruct (str_eqb k k') eqn:E; cbn [assoc]; rewrite E; [reflexivity|exact IH].
+Qed.
+
+Lemma assoc_update_other {A} k k' (f : A -> A) l : k <> k' -> assoc k' (assoc_update k f l) = assoc k' l.
+Proof.
+  intro Hne. induction l as [|[k2 v] r IH]; cbn [assoc_update assoc]; [reflexivity|].
+  destruct (str_eqb k k2) eqn:E; cbn [assoc].
+  - apply str_eqb_eq in E. subst k2.
+    destruct (str_eqb k' k) eqn:E2; [apply str_eqb_eq in E2; congruence|reflexivity].
+  - destruct (str_eqb k' k2); [reflexivity|exact IH].
+Qed.
+
+Lemma assoc_update_keys {A} k (f : A -> A) l : map fst (assoc_update k f l) = map fst l.
+Proof.
+  induction l as [|[k2 v] r IH]; cbn [assoc_update map fst]; [reflexivity|].
+  destruct (str_eqb k k2); cbn [map fst]; [reflexivity|f_equal; exact IH].
+Qed.
+
+(* ---------- the API rules of a rule list, in order ---------- *)
+Definition api_of (rs : list (rule float)) : list (list (list (token_info float)) * apirule float) :=
+  flat_map (fun r => match r with RApi p a => [(p, a)] | RInternal _ _ => [] end) rs.
+Definition internal_of (rs : list (rule float)) : list (rule float) :=
+  filter (fun r => match r with RInternal _ _ => true | RApi _ _ => false end) rs.
+
+Lemma api_of_app a b : api_of (a ++ b) = api_of a ++ api_of b.
+Proof. unfold api_of. apply flat_map_app. Qed.
+Lemma internal_of_app a b : internal_of (a ++ b) = internal_of a ++ internal_of b.
+Proof. unfold internal_of. apply filter_app. Qed.
+
+(* reference: delete removes the first registration with that name *)
+Fixpoint remove_first (name : str) (l : list (list (list (token_info float)) * apirule float)) :=
+  match l with
+  | [] => []
+  | (p, a) :: r => if str_eqb name (ar_name a) then r else (p, a) :: remove_first name r
+  end.
+Definition has_name (name : str) (l : list (list (list (token_info float)) * apirule float)) : bool :=
+  existsb (fun pa => str_eqb name (ar_name (snd pa))) l.
+
+Definition is_named (name : str) (r : rule float) : bool :=
+  match r with RApi _ ar => str_eqb name (ar_name ar) | _ => false end.
+
+Lemma find_index_named name rs :
+  match find_index (is_named name) rs with
+  | Some i => has_name name (api_of rs) = true /\
+              api_of (remove_at i rs) = remove_first name (api_of rs) /\
+              internal_of (remove_at i rs) = internal_of rs
+  | None => has_name name (api_of rs) = false
+  end.
+Proof.
+  induction rs as [|r rs IH]; cbn [find_index]; [reflexivity|].
+  destruct r as [fn ps|ps ar]; cbn [is_named].
+  - destruct (find_index (is_named name) rs) as [i|]; cbn [option_map].
+    + destruct IH as (H1 & H2 & H3). cbn [remove_at api_of internal_of flat_map filter app].
+      repeat split; [exact H1|exact H2|f_equal; exact H3].
+    + exact IH.
+  - destruct (str_eqb name (ar_name ar)) eqn:E.
+    + cbn [remove_at api_of internal_of flat_map filter app has_name existsb snd remove_first].
+      rewrite E. repeat split.
+    + destruct (find_index (is_named name) rs) as [i|]; cbn [option_map].
+      * destruct IH as (H1 & H2 & H3).
+        cbn [remove_at api_of internal_of flat_map filter app has_name existsb snd remove_first].
+        rewrite E. cbn [orb]. repeat split; [exact H1|f_equal; exact H2|exact H3].
+      * cbn [api_of flat_map app has_name existsb snd]. rewrite E. exact IH.
+Qed.
+
+(* ---------- add_rule ---------- *)
+Definition nonempty_pats (ps0 : list (list (token_info float))) :=
+  filter (fun p : list (token_info float) => match p with [] => false | _ => true end) ps0.
+
+Definition mk_api name kind k cur : apirule float := {| ar_name := name; ar_kind := kind; ar_k := k; ar_cur := cur |}.
+
+Definition rules_of (m : mstate) (lang : str) := assoc lang (cf_rules (m_cfg m)).
+
+(* everything but the rule table *)
+Definition same_but_rules (c c' : config float) : Prop :=
+  c' = set_rules c (cf_rules c').
+
+Theorem add_rule_spec ck m lang patterns name kind k cur ps0 :
+  tokenise_patterns LX ck (m_cfg m) lang patterns = Ok ps0 ->
+  let r := step ck m (OAddRule lang patterns name kind k cur) in
+  match rules_of m lang with
+  | None => r = (m, MRet (Some false))                    (* unknown language: refused, nothing changes *)
+  | Some rs =>
+    snd r = MRet (Some true) /\
+    rules_of (fst r) lang = Some (rs ++ [RApi (nonempty_pats ps0) (mk_api name kind k cur)]) /\
+    (forall l', l' <> lang -> rules_of (fst r) l' = rules_of m l') /\
+    same_but_rules (m_cfg m) (m_cfg (fst r)) /\ m_sessions (fst r) = m_sessions m
+  end.
+Proof.
+  intros Htok r. subst r. unfold rules_of. cbn [step]. rewrite Htok.
+  destruct (assoc lang (cf_rules (m_cfg m))) as [rs|] eqn:E; [|reflexivity].
+  cbn [fst snd with_cfg m_cfg m_sessions set_rules cf_rules]. repeat split.
+  - rewrite assoc_update_same, E. reflexivity.
+  - intros l' Hne. apply assoc_update_other. congruence.
+Qed.
+
+(* registration fails only for an unknown language (given that the patterns can be tokenised) *)
+Corollary add_rule_returns ck m lang patterns name kind k cur ps0 :
+  tokenise_patterns LX ck (m_cfg m) lang patterns = Ok ps0 ->
+  snd (step ck m (OAddRule lang patterns name kind k cur)) =
+  MRet (Some (match rules_of m lang with Some _ => true | None => false end)).
+Proof.
+  intro H. pose proof (add_rule_spec ck m lang patterns name kind k cur ps0 H) as S. cbv zeta in S.
+  destruct (rules_of m lang); [apply S|rewrite S; reflexivity].
+Qed.
+
+(* ---------- delete_rule ---------- *)
+Theorem delete_rule_spec ck m lang name :
+  let r := step ck m (ODeleteRule lang name) in
+  match rules_of m lang with
+  | None => r = (m, MRet (Some false))
+  | Some rs =>
+    if has_name name (api_of rs) then
+      snd r = MRet (Some true) /\
+      (exists rs', rules_of (fst r) lang = Some rs' /\
+                   api_of rs' = remove_first name (api_of rs) /\ internal_of rs' = internal_of rs) /\
+      (forall l', l' <> lang -> rules_of (fst r) l' = rules_of m l') /\
+      same_but_rules (m_cfg m) (m_cfg (fst r)) /\ m_sessions (fst r) = m_sessions m
+    else r = (m, MRet (Some false))
+  end.
+Proof.
+  intro r. subst r. unfold rules_of. cbn [step].
+  destruct (assoc lang (cf_rules (m_cfg m))) as [rs|] eqn:E; [|reflexivity].
+  pose proof (find_index_named name rs) as Hf. fold (is_named name).
+  change (fun r : rule float => match r with RApi _ ar => str_eqb name (ar_name ar) | RInternal _ _ => false end)
+    with (is_named name).
+  destruct (find_index (is_named name) rs) as [i|].
+  - destruct Hf as (H1 & H2 & H3). rewrite H1.
+    cbn [fst snd with_cfg m_cfg m_sessions set_rules cf_rules]. repeat split.
+    + exists (remove_at i rs). rewrite assoc_update_same, E. cbn [option_map]. repeat split; assumption.
+    + intros l' Hne. apply assoc_update_other. congruence.
+  - rewrite Hf. reflexivity.
+Qed.
+
+(* ---------- histories of registrations and deletions ---------- *)
+(* the reference: a list of registrations; add appends, delete removes the first of that name *)
+Inductive rop :=
+| RAdd (ps : list (list (token_info float))) (a : apirule float)
+| RDel (name : str).
+
+Definition spec_rop (l : list (list (list (token_info float)) * apirule float)) (o : rop) :=
+  match o with
+  | RAdd ps a => l ++ [(ps, a)]
+  | RDel name => remove_first name l
+  end.
+
+(* an operation history realises a reference history when every add_rule's patterns tokenise
+   to the recorded ones under the configuration at that moment *)
+Fixpoint realises (ck : clock) (lang : str) (m : mstate) (ops : list op) (ros : list rop) : Prop :=
+  match ops, ros with
+  | [], [] => True
+  | OAddRule l patterns name kind k cur :: ops', RAdd ps a :: ros' =>
+    l = lang /\ a = mk_api name kind k cur /\
+    (exists ps0, tokenise_patterns LX ck (m_cfg m) lang patterns = Ok ps0 /\ ps = nonempty_pats ps0) /\
+    realises ck lang (fst (step ck m (OAddRule l patterns name kind k cur))) ops' ros'
+  | ODeleteRule l name :: ops', RDel name' :: ros' =>
+    l = lang /\ name' = name /\ realises ck lang (fst (step ck m (ODeleteRule l name))) ops' ros'
+  | _, _ => False
+  end.
+
+Theorem rule_history ck lang : forall ops ros m rs,
+  rules_of m lang = Some rs -> realises ck lang m ops ros ->
+  exists rs', rules_of (final ck m ops) lang = Some rs' /\
+              api_of rs' = fold_left spec_rop ros (api_of rs) /\
+              internal_of rs' = internal_of rs /\
+              (forall l', l' <> lang -> rules_of (final ck m ops) l' = rules_of m l') /\
+              m_sessions (final ck m ops) = m_sessions m.
+Proof.
+  induction ops as [|o ops IH]; intros ros m rs Hrs Hreal.
+  - destruct ros; [|contradiction]. exists rs. cbn [final fold_left]. auto.
+  - destruct ros as [|ro ros]; [destruct o; contradiction|].
+    destruct o as [ | | | | | | | | | | | | | |lang0 patterns name kind k cur|lang0 name0| | ];
+      try contradiction; destruct ro as [ps a|name']; try contradiction.
+    + cbn [realises] in Hreal. destruct Hreal as (-> & -> & (ps0 & Htok & ->) & Hreal).
+      pose proof (add_rule_spec ck m lang patterns name kind k cur ps0 Htok) as S. cbv zeta in S.
+      rewrite Hrs in S. destruct S as (_ & S2 & S3 & _ & S5).
+      destruct (IH ros _ _ S2 Hreal) as (rs' & R1 & R2 & R3 & R4 & R5).
+      exists rs'. cbn [final fold_left]. fold (final ck (fst (step ck m (OAddRule lang patterns name kind k cur))) ops).
+      repeat split.
+      * exact R1.
+      * rewrite R2, api_of_app. reflexivity.
+      * rewrite R3, internal_of_app. cbn [internal_of filter]. apply app_nil_r.
+      * intros l' Hne. rewrite R4 by exact Hne. apply S3. exact Hne.
+      * rewrite R5. exact S5.
+    + cbn [realises] in Hreal. destruct Hreal as (-> & -> & Hreal).
+      pose proof (delete_rule_spec ck m lang name0) as S. cbv zeta in S. rewrite Hrs in S.
+      cbn [final fold_left]. fold (final ck (fst (step ck m (ODeleteRule lang name0))) ops).
+      destruct (has_name name0 (api_of rs)) eqn:Hn.
+      * destruct S as (_ & (rs1 & S2 & S2a & S2b) & S3 & _ & S5).
+        destruct (IH ros _ _ S2 Hreal) as (rs' & R1 & R2 & R3 & R4 & R5).
+        exists rs'. repeat split.
+        -- exact R1.
+        -- rewrite R2, S2a. reflexivity.
+        -- rewrite R3. exact S2b.
+        -- intros l' Hne. rewrite R4 by exact Hne. apply S3. exact Hne.
+        -- rewrite R5. exact S5.
+      * rewrite S in Hreal |- *. cbn [fst] in *.
+        destruct (IH ros _ _ Hrs Hreal) as (rs' & R1 & R2 & R3 & R4 & R5).
+        exists rs'. repeat split; try assumption.
+        rewrite R2. cbn [fold_left spec_rop]. f_equal.
+        clear -Hn. induction (api_of rs) as [|[p a] l IHl]; [reflexivity|].
+        cbn [has_name existsb snd remove_first] in *. destruct (str_eqb name0 (ar_name a)); [discriminate|].
+        cbn [orb] in Hn. f_equal. apply IHl. exact Hn.
+Qed.
+
+(* deleting a rule right after registering it restores the rule list of the language *)
+Lemma remove_first_snoc name l p a :
+  has_name name l = false -> ar_name a = name -> remove_first name (l ++ [(p, a)]) = l.
+Proof.
+  intros H <-. induction l as [|[p' a'] l IH]; cbn [app remove_first has_name existsb snd] in *.
+  - rewrite str_eqb_refl. reflexivity.
+  - destruct (str_eqb (ar_name a) (ar_name a')); [discriminate|]. cbn [orb] in H. f_equal. apply IH. exact H.
+Qed.
+
+(* ---------- a rule that declines ---------- *)
+Section Decline.
+Variable bexec : config float -> str -> res (option float).
+Variable now_year : Z.
+
+(* find_match never panics on a non-empty pattern *)
+Lemma find_match_loop_ok vs pat : pat <> [] -> forall tokens rule_idx start target fs,
+  rule_idx < length pat ->
+  exists r, find_match_loop vs pat tokens rule_idx start target fs = Ok r.
+Proof.
+  intros Hne tokens. induction tokens as [|t rest IH]; intros rule_idx start target fs Hlt; cbn [find_match_loop].
+  - eexists; reflexivity.
+  - destruct (ti_active t); cbn [negb]; [|apply IH; exact Hlt].
+    destruct (ti_ty t) as [ty|].
+    + destruct (nth_opt pat rule_idx) as [p|] eqn:En.
+      * set (same := match ty with TVariable v => variable_compare vs p (var_value vs v) | _ => info_eq t p end).
+        destruct same.
+        -- destruct (Nat.eqb_spec (length pat) (S rule_idx)); [eexists; reflexivity|apply IH; lia].
+        -- destruct (Nat.eqb_spec (length pat) 0); [eexists; reflexivity|apply IH; lia].
+      * exfalso. revert En. clear -Hlt. revert rule_idx Hlt.
+        induction pat as [|x pat IHp]; intros [|i] Hlt; cbn [length nth_opt] in *; try lia; try discriminate.
+        apply IHp. lia.
+    + destruct (Nat.eqb_spec (length pat) rule_idx); [eexists; reflexivity|apply IH; exact Hlt].
+Qed.
+
+Lemma find_match_ok vs pat tokens : pat <> [] -> exists m, find_match vs pat tokens = Ok m.
+Proof.
+  intro Hne. unfold find_match.
+  destruct (find_match_loop_ok vs pat Hne tokens 0 0 0 []) as [[[[ri st] tg] fs] E].
+  { destruct pat; [contradiction|cbn [length]; lia]. }
+  rewrite E. cbn [bind]. eexists; reflexivity.
+Qed.
+
+(* a declining API rule never rewrites anything and never panics *)
+Lemma decline_try line cfg lang vs ps ar st :
+  ar_kind ar = RDecline -> Forall (fun p => p <> []) ps ->
+  forall pats, incl pats ps ->
+  rule_try_patterns bexec now_year line cfg lang vs (RApi ps ar) pats st = Ok None.
+Proof.
+  intros Hk Hne pats. induction pats as [|pat rest IH]; intro Hincl; cbn [rule_try_patterns]; [reflexivity|].
+  assert (Hp : pat <> []).
+  { rewrite Forall_forall in Hne. apply Hne. apply Hincl. left. reflexivity. }
+  destruct (find_match_ok vs pat (ts_infos st) Hp) as [m E]. rewrite E. cbn [bind].
+  assert (Hrest : incl rest ps) by (intros x Hx; apply Hincl; right; exact Hx).
+  destruct (Nat.eqb (fm_total m) (fm_rule_idx m)); [|apply IH; exact Hrest].
+  unfold api_call. rewrite Hk. apply IH. exact Hrest.
+Qed.
+
+(* ... so a sweep, and hence the whole rule loop, over a rule list containing it anywhere is the
+   sweep over the list without it: the line evaluates as if the rule were absent *)
+Theorem decline_sweep line cfg lang vs ps ar :
+  ar_kind ar = RDecline -> Forall (fun p => p <> []) ps ->
+  forall pre post st fired,
+  rule_sweep bexec now_year line cfg lang vs (pre ++ RApi ps ar :: post) st fired =
+  rule_sweep bexec now_year line cfg lang vs (pre ++ post) st fired.
+Proof.
+  intros Hk Hne pre. induction pre as [|r pre IH]; intros post st fired; cbn [app rule_sweep].
+  - cbn [rule_patterns]. rewrite (decline_try line cfg lang vs ps ar st Hk Hne ps (incl_refl _)). reflexivity.
+  - destruct (rule_try_patterns bexec now_year line cfg lang vs r (rule_patterns r) st) as [[st'|]|site];
+      cbn [bind]; [apply IH|apply IH|reflexivity].
+Qed.
+
+Theorem decline_loop line cfg lang vs ps ar pre post :
+  ar_kind ar = RDecline -> Forall (fun p => p <> []) ps ->
+  forall fuel st,
+  rule_loop bexec now_year fuel line cfg lang vs (pre ++ RApi ps ar :: post) st =
+  rule_loop bexec now_year fuel line cfg lang vs (pre ++ post) st.
+Proof.
+  intros Hk Hne fuel. induction fuel as [|f IH]; intro st; cbn [rule_loop]; [reflexivity|].
+  rewrite decline_sweep by assumption.
+  destruct (rule_sweep bexec now_year line cfg lang vs (pre ++ post) st false) as [[st' fired]|site];
+    cbn [bind]; [|reflexivity].
+  destruct fired; [apply IH|reflexivity].
+Qed.
+End Decline.
+
+(* the patterns stored by add_rule are never empty *)
+Lemma nonempty_pats_ok ps0 : Forall (fun p => p <> []) (nonempty_pats ps0).
+Proof.
+  unfold nonempty_pats. apply Forall_forall. intros p Hin. apply filter_In in Hin as [_ H].
+  destruct p; [discriminate|discriminate].
+Qed.
+
+(* ---------- user-defined unit families ---------- *)
+Theorem add_type_spec ck m name :
+  let r := step ck m (OAddType name) in
+  match assoc name (cf_types (m_cfg m)) with
+  | Some _ => r = (m, MRet (Some false))             (* duplicate family: refused, nothing changes *)
+  | None => snd r = MRet (Some true) /\
+            cf_types (m_cfg (fst r)) = assoc_insert name [] (cf_types (m_cfg m)) /\
+            cf_rules (m_cfg (fst r)) = cf_rules (m_cfg m) /\ m_sessions (fst r) = m_sessions m
+  end.
+Proof.
+  intro r. subst r. cbn [step]. destruct (assoc name (cf_types (m_cfg m))); [reflexivity|].
+  cbn [fst snd with_cfg m_cfg set_types cf_types cf_rules m_sessions]. auto.
+Qed.
+
+Theorem add_type_item_duplicate ck m name index format parse up down names digits rnd rm g d :
+  assoc name (cf_types (m_cfg m)) = Some g -> nassoc index g = Some d ->
+  step ck m (OAddTypeItem name index format parse up down names digits rnd rm) = (m, MRet (Some false)).
+Proof. intros H1 H2. cbn [step]. rewrite H1, H2. reflexivity. Qed.
+
+Theorem add_type_item_unknown_family ck m name index format parse up down names digits rnd rm :
+  assoc name (cf_types (m_cfg m)) = None ->
+  step ck m (OAddTypeItem name index format parse up down names digits rnd rm) = (m, MRet (Some false)).
+Proof. intros H1. cbn [step]. rewrite H1. reflexivity. Qed.
+
+Theorem add_type_item_new ck m name index format parse up down names digits rnd rm g ps0 :
+  assoc name (cf_types (m_cfg m)) = Some g -> nassoc index g = None ->
+  tokenise_patterns LX ck (m_cfg m) (s "en") parse = Ok ps0 ->
+  let r := step ck m (OAddTypeItem name index format parse up down names digits rnd rm) in
+  snd r = MRet (Some true) /\
+  cf_types (m_cfg (fst r)) =
+    assoc_insert name (ninsert index {| dt_group := name; dt_index := index; dt_format := format;
+                                        dt_parse := nonempty_pats ps0; dt_up := up; dt_down := down;
+                                        dt_names := names; dt_digits := digits; dt_round := rnd; dt_rm := rm |} g)
+                 (cf_types (m_cfg m)) /\
+  cf_rules (m_cfg (fst r)) = cf_rules (m_cfg m).
+Proof.
+  intros H1 H2 H3 r. subst r. cbn [step]. rewrite H1, H2, H3.
+  cbn [fst snd with_cfg m_cfg set_types cf_types cf_rules]. auto.
+Qed.
